@@ -147,6 +147,7 @@ fn main_c11(tier: &str, seed: u64, replay: Option<&str>) -> i32 {
         for simpler in [vec![], vec![1usize]] {
             let mut c = case.clone();
             c.rschedule = simpler;
+            c.rdelays_ms = vec![];
             if budget > 0 && fails(&c) {
                 case = c;
                 break;
@@ -229,7 +230,7 @@ fn main_c11(tier: &str, seed: u64, replay: Option<&str>) -> i32 {
         return 2;
     }
     // reach probes
-    for probe in ["quiescence_points_inside_hunk", "points_with_held_lines_exactly_at_bound", "points_in_run_longer_than_bound.minus", "points_in_run_longer_than_bound.plus", "fault_fired.read_eintr", "fault_fired.write_eintr", "fault_fired.short_write", "chunk_boundary_inside_utf8_sequence"] {
+    for probe in ["quiescence_points_inside_hunk", "points_with_held_lines_exactly_at_bound", "points_in_run_longer_than_bound.minus", "points_in_run_longer_than_bound.plus", "fault_fired.read_eintr", "fault_fired.write_eintr", "fault_fired.short_write", "fault_fired.producer_pause_clock_advance", "chunk_boundary_inside_utf8_sequence"] {
         if ev.counters.get(probe).copied().unwrap_or(0) == 0 && exit == 0 {
             eprintln!("HARNESS-ERROR: probe {} stuck at zero", probe);
             exit = 2;
@@ -249,6 +250,23 @@ fn main() {
     let replay = args.iter().position(|a| a == "--replay").and_then(|i| args.get(i + 1)).cloned();
     let seed = verif_seed();
     let code = match args.get(1).map(|s| s.as_str()) {
+        Some("clocktest") => {
+            // the simulator owns std's clocks
+            sim::sim_clock_begin();
+            let t0 = std::time::Instant::now();
+            let w0 = std::time::SystemTime::now();
+            sim::sim_clock_advance_ms(5000);
+            let dt = t0.elapsed();
+            let dw = w0.elapsed().unwrap_or_default();
+            sim::sim_clock_end();
+            println!("monotonic advanced by {:?}, wall clock by {:?}", dt, dw);
+            if dt.as_millis() >= 5000 && dt.as_millis() < 5010 && dw.as_millis() == 5000 {
+                0
+            } else {
+                eprintln!("HARNESS-ERROR: the simulated clock is not in effect");
+                2
+            }
+        }
         Some("C11") => main_c11(&tier, seed, replay.as_deref()),
         Some("C10") => c10::main_c10(&tier, seed, replay.as_deref()),
         Some("C18") => c18::main_c18(&tier, seed, replay.as_deref()),
